@@ -25,6 +25,9 @@ SNext(o) ==
       [] o.op \in {"or", "or_assign"}   -> s \cup t
       [] o.op \in {"xor", "xor_assign"} -> SymD(s, t)
       [] o.op = "not"    -> IdxRange \ s
+      \* the value-form operators with the very same object on both sides: &a & &a, &a | &a, &a ^ &a
+      [] o.op \in {"and_self", "or_self"} -> s
+      [] o.op = "xor_self" -> {}
       [] OTHER -> s
 TNext(o) ==
     CASE o.op = "t_set"  -> t \cup {o.x}
